@@ -45,6 +45,9 @@ def run(tier, seed):
                 same = json.loads(o["json"]) == json.loads(c[2])
             except Exception:
                 same = False
+            if not o.get("direct_json_same", True):
+                rep.violation(f"document '{c[0]}': text.parse::<Schema>() and text.parse::<SchemaMut>()?.freeze() keep different JSON texts",
+                              {"fam": "schema_doc", "text": c[2], "doc": c[1]}, expected="the same (original, minified) document through both entry points", observed=o["json"][:1500])
             if not same or not minified(o["json"]):
                 rep.violation(f"document '{c[0]}': Schema::json() is not the original document minified with every key preserved",
                               {"fam": "schema_doc", "text": c[2], "doc": c[1]}, expected="JSON-equal to the source, no insignificant whitespace", observed=o["json"][:1500])
